@@ -415,7 +415,6 @@ var _ net.Conn
 
 func jsonUnmarshal(s string, v any) error { return json.Unmarshal([]byte(s), v) }
 
-
 // replay cannot reproduce one interleaving; it repeats a short stress run of the same configuration.
 func replay(c *fw.Ctx, raw json.RawMessage) {
 	c.Mode = "stress"
